@@ -10,7 +10,9 @@ package gorums
 // World: 1 full-stack node (scripted peer: replies at once) + 1 thin node that never answers
 // (so two-way calls return on the first reply while a straggler is still queued). Symbolic:
 // the call type of every call (all 9), send-buffer size; all interleavings of the issuer, the
-// sender, receiver, watcher and future/correctable handler goroutines.
+// sender, receiver, watcher and future/correctable handler goroutines. kindsA selects the
+// programs: 0 all types, 1 representative later calls, 2 bursts of no-send-waiting calls, 3 a
+// call with a per-node argument function followed by plain calls.
 
 func VerifC03Client(ncalls, sendBuffer, kindsA int) {
 	var opts []ManagerOption
@@ -61,6 +63,17 @@ func VerifC03Client(ncalls, sendBuffer, kindsA int) {
 				}
 			}
 			calls[k] = fsNewCall(kind, k+1, 1)
+			if kindsA == 3 {
+				// per-node mode: a configuration-level call with a per-node argument function,
+				// followed by plain calls of three representative types
+				if k == 0 && (ckNodeLevel(kind) || kind == ckCorrStream) {
+					vAssume(false)
+				}
+				if k > 0 && kind != ckRPC && kind != ckQC && kind != ckUnicast {
+					vAssume(false)
+				}
+				calls[k].perNode = k == 0
+			}
 			if ckOneWay(kind) {
 				calls[k].req.tok = 200 + k + 1 // one-way: the scripted handler sends no reply
 			}
